@@ -683,7 +683,7 @@ def run(tier, seed):
             if line and not line.startswith("#"):
                 corpus.append(json.loads(line))
     tie_ok, _ = run_batch(res, corpus, "corpus")
-    nq = 20 if tier == "quick" else 240
+    nq = 40 if tier == "quick" else 320
     specs = [gen_spec(rng, kernel=(k % 3 == 2)) for k in range(nq)]
     ok2, _ = run_batch(res, specs, "generated")
     tie_ok = tie_ok and ok2
